@@ -455,6 +455,9 @@ func (s *session) visitNode(sprint *sprint, run flows.Run, node flows.Node, trig
 		if err := trigger.InitializeRun(run, logEvent); err != nil {
 			return step, nil, "", nil
 		}
+
+		// triggers can change the contact (e.g. a received message updates last seen on) so ensure groups are still correct
+		s.ensureQueryBasedGroups(logEvent)
 	}
 
 	// execute our node's actions
